@@ -281,7 +281,9 @@ class load(DataStreamProcessor):
             if self.extract_missing_values:
                 it = self.missing_values_extractor(it)
             it = self.caster(descriptor, it)
-            if self.strip:
+            if self.strip and self.load_dp is None and not isinstance(self.load_source, tuple):
+                # (stripping is for values parsed from a file; the values of a data package
+                # are loaded as the package holds them)
                 it = self.stripper(it)
             if self.limit_rows is not None:
                 it = self.limiter(it)
